@@ -201,9 +201,12 @@ def _init_worker(modname):
 
     _MOD = importlib.import_module(modname)
     try:
+        import logging
+
         import matplotlib
 
         matplotlib.use("Agg")
+        logging.getLogger("matplotlib.font_manager").setLevel(logging.ERROR)
     except Exception:
         pass
 
